@@ -18,6 +18,8 @@ const SC: Ordering = Ordering::SeqCst;
 
 /// `pop_mask` of nodes made by `Ctx::new_node` (parameter `dpop` of any scenario; default: both
 /// edges popped, plain destructor).
+/// The world of the running execution, for destructors that read from it (`pop_mask` bit 4).
+pub static DTOR_WORLD: std::sync::atomic::AtomicUsize = std::sync::atomic::AtomicUsize::new(0);
 pub static DEFAULT_POP: std::sync::atomic::AtomicU8 = std::sync::atomic::AtomicU8::new(0b11);
 
 pub struct Node {
@@ -53,6 +55,26 @@ impl Drop for Node {
         if self.pop_mask & 4 != 0 {
             let g = circ::cs();
             g.flush();
+        }
+        if self.pop_mask & 16 != 0 {
+            // a destructor that reads (bit 4): under a guard of its own it loads roots[0] of the
+            // execution's world and goes on using the Snapshot while it flushes three times
+            let wp = DTOR_WORLD.load(Ordering::Relaxed);
+            if wp != 0 && try_mon().is_some() && sched::tid() < sched::MAX_THREADS {
+                let w = unsafe { &*(wp as *const World) };
+                let c = Ctx::new();
+                let g = c.pin();
+                let s = c.load(&w.roots[0], &g);
+                if !s.s.is_null() {
+                    for _ in 0..3 {
+                        c.sderef(s);
+                        c.flush(&g);
+                    }
+                    c.sderef(s);
+                    mon().cover("destructor-read-under-own-guard");
+                }
+                c.unpin(g);
+            }
         }
         if self.pop_mask & 8 != 0 {
             // gates of a long cascade (bit 3): every 130th node's destructor advances the epoch
